@@ -369,19 +369,25 @@ def owner_first(ctx):
                         ("getShape", "getShape"), ("getRankIds", "getRankIds")):
         f = ctx.method("Fiber", name)
         g = cfg_of(f, assert_edges=False)
-        owner_ret = None
-        for n in f.own_nodes():
-            if isinstance(n, ast.If):
-                t = pat.inline(ctx, f, n.test).replace(" ", "")
-                if t in ("self.getOwner()isnotNone", "self.getOwner()"):
-                    uses = [x for x in _walk(n.body) if isinstance(x, ast.Call)
-                            and isinstance(x.func, ast.Attribute)
-                            and x.func.attr == query and
-                            pat.inline(ctx, f, x.func.value).replace(" ", "")
-                            == "self.getOwner()"]
-                    if uses:
-                        owner_ret = n
-        if owner_ret is None:
+        owned = pat.A("is not", "self.getOwner()", "None")
+        unowned = pat.A("is", "self.getOwner()", "None")
+
+        def gatoms(st):
+            out = set()
+            for t, pol in \
+                    [(t, pol) for t, pol in atomic_guards(st)]:
+                a = pat.catom(ctx, f, t, pol)
+                if a == pat.T("self.getOwner()"):
+                    a = owned
+                elif a == pat.T("self.getOwner()", False):
+                    a = unowned
+                out.add(a)
+            return out
+        uses = [x for x in f.own_nodes() if isinstance(x, ast.Call)
+                and isinstance(x.func, ast.Attribute) and x.func.attr == query
+                and pat.inline(ctx, f, x.func.value).replace(" ", "") == "self.getOwner()"
+                and owned in gatoms(enclosing_stmt(x))]
+        if not uses:
             ctx.bad("C14.R3", f, f.node, "Fiber.%s no longer asks the owning "
                     "rank first: a fiber that joined a tensor keeps reporting "
                     "its private attributes" % name, text_="Fiber.%s owner first" % name)
@@ -390,13 +396,13 @@ def owner_first(ctx):
                  "getRankAttrs()" in text(n) and name != "getRankAttrs"] + \
                 [n for n in f.own_nodes() if isinstance(n, ast.Attribute)
                  and n.attr == "_rank_attrs"]
-        if all(g.dominates(owner_ret, enclosing_stmt(x)) or
-               is_within(x, owner_ret) for x in local):
-            ctx.ok("C14.R3", f, owner_ret, "owner consulted before the fiber's "
-                   "own attributes")
+        if all(unowned in gatoms(enclosing_stmt(x)) for x in local):
+            ctx.ok("C14.R3", f, uses[0], "owner consulted before the fiber's "
+                   "own attributes", text_="Fiber.%s owner first" % name)
         else:
-            ctx.bad("C14.R3", f, owner_ret, "Fiber.%s reads its private rank "
-                    "attributes before checking for an owner" % name)
+            ctx.bad("C14.R3", f, uses[0], "Fiber.%s reads its private rank "
+                    "attributes on a path where it has an owner" % name,
+                    text_="Fiber.%s owner first" % name)
     f = ctx.method("Rank", "append")
     g = cfg_of(f, assert_edges=False)
     own = [enclosing_stmt(c) for c in pat.calls(f, attr="setOwner")
